@@ -656,7 +656,9 @@ def key_of(c, absl, what):
     if what == 'crash' and any(x in bad for x in ('bad-varid', 'global-varid')):
         bad = [x for x in bad if x in ('bad-varid', 'global-varid')]
     s = (bad[0] + '-on-one-rank') if bad else '+'.join(valid)
-    if c.pre and c.pre not in ('data',):
+    if is_fill_pre(c.pre):
+        s += ':new-fill-mode-variables:' + ('first-define-mode' if c.pre[1] == 'n' else 'after-redef')
+    elif c.pre and c.pre not in ('data',):
         s += ':from-' + c.pre
     return '%s:%s%s%s' % (api, s, cfgs, tail)
 
